@@ -252,6 +252,24 @@ static void l3_at(long shard, void *arg) {
     }
 }
 
+/* ---------- L4: bracket contents (the composition clause on address literals, incl. zero octets) ---------- */
+static const mc_tok_t SIGLIT[] = { MC_TOK("1"), MC_TOK("0"), MC_TOK("a"), MC_TOK(":"), MC_TOK("."), MC_TOK("IPv6:"), MC_TOK("25") };
+static void l4_cb(const unsigned char *s, size_t n, int nt, void *a) {
+    (void)nt; (void)a; unsigned char t[128]; size_t l = 0;
+    memcpy(t, "x@[", 3); l = 3; memcpy(t + l, s, n); l += n; t[l++] = ']';
+    check_email("L4literal", t, l); MC_ADD(C_L3, 1);
+}
+static mc_enum_t L4E;
+static void l4_shard(long s, void *a) { (void)a; mc_enum_t e = L4E; mc_enum_shard(&e, s); }
+static void l4_quads(long shard, void *arg) {
+    (void)arg; (void)shard; char c[128];
+    static const char *const O[] = { "0", "00", "1", "10", "255", "256", "" };
+    for (int a = 0; a < 7; a++) for (int b = 0; b < 7; b++) for (int cc = 0; cc < 7; cc++) for (int d = 0; d < 7; d++) for (int tag = 0; tag < 3; tag++) {
+        int n = snprintf(c, sizeof c, "x@[%s%s.%s.%s.%s]", tag == 0 ? "" : tag == 1 ? "IPv6:::" : "IPv6:1:2:3:4:5:6:", O[a], O[b], O[cc], O[d]);
+        check_email("L4quad", (unsigned char *)c, (size_t)n); MC_ADD(C_L3, 1);
+    }
+}
+
 static int do_replay(void) {
     mc_replay_t r; if (mc_load_replay(mc_replay, &r)) return 2;
     mc_replay_hit = 0; check_email(r.sub, r.in, (size_t)r.len);
@@ -270,6 +288,9 @@ int main(int argc, char **argv) {
     mc_parallel("L3: local part length 0..70 x 5 shapes x 5 domains", 71, l3_lpart, NULL);
     mc_parallel("L3: domain length 1..262 x label sizes x root dot", 262, l3_domlen, NULL);
     mc_parallel("L3: 0-4 '@' at every position of 4 skeletons; every '['..']' placement", 1, l3_at, NULL);
+    memset(&L4E, 0, sizeof L4E); L4E.A = SIGLIT; L4E.nA = 7; L4E.N = mc_thorough ? 8 : 7; L4E.k = 2; L4E.fn = l4_cb;
+    mc_parallel("L4: all bracket contents over {1 0 a : . IPv6: 25}", mc_enum_shards(&L4E), l4_shard, NULL);
+    mc_parallel("L4: dotted quads over 7 octet spellings ^4, plain and as IPv6 tail", 1, l4_quads, NULL);
     int N = mc_thorough ? 8 : 6;
     memset(&L1E, 0, sizeof L1E); L1E.A = SIGC; L1E.nA = NSIGC; L1E.N = N; L1E.k = 3; L1E.fn = l1_cb;
     char nm[96]; snprintf(nm, sizeof nm, "L1: all strings of <= %d tokens over {a . @ [ ] \" \\ SP 1 : - U+0416}", N);
